@@ -133,13 +133,13 @@ func varyCfg(r *R, a Cfg) Cfg {
 
 func genOperatorOp(r *R, nCfg int) COp {
 	switch x := r.Intn(100); {
-	case x < 35:
+	case x < 30:
 		return COp{Kind: "reconf", Cfg: r.Intn(nCfg)}
-	case x < 45:
+	case x < 40:
 		return COp{Kind: "reconf_nil"}
-	case x < 55:
+	case x < 48:
 		return COp{Kind: "reconf_invalid", Cfg: r.Intn(nCfg), Planted: genPlanted(r, r.Range(1, 2))}
-	case x < 80:
+	case x < 70:
 		return COp{Kind: "setdebug", Debug: r.P(0.5)}
 	case x < 90:
 		return COp{Kind: "config"}
@@ -210,8 +210,13 @@ func (e c07) Gen(r *R, tier string) any {
 	p.InitCfg = r.Intn(n+1) - 1
 	p.InitDebug = p.InitCfg >= 0 && r.P(0.5)
 	nClients, nOps := r.Range(1, 3), r.Range(1, 2)
+	maxReq, maxOp, preemptChoices := 4, 4, []int{0, 1, 1, 2, 2, 3, 4}
+	if tier == "thorough" && r.P(0.35) { // deeper bounds in a third of the thorough runs
+		nClients, nOps = r.Range(2, 4), r.Range(1, 3)
+		maxReq, maxOp, preemptChoices = 6, 6, []int{1, 2, 3, 4, 5, 6, 8}
+	}
 	for i := 0; i < nClients; i++ {
-		k := r.Range(1, 4)
+		k := r.Range(1, maxReq)
 		var t CTask
 		for _, q := range discriminating(r, p.Cfgs, k) {
 			q := q
@@ -226,7 +231,7 @@ func (e c07) Gen(r *R, tier string) any {
 		p.Tasks = append(p.Tasks, t)
 	}
 	for i := 0; i < nOps; i++ {
-		k := r.Range(1, 4)
+		k := r.Range(1, maxOp)
 		var t CTask
 		for j := 0; j < k; j++ {
 			t.Ops = append(t.Ops, genOperatorOp(r, n))
@@ -236,10 +241,10 @@ func (e c07) Gen(r *R, tier string) any {
 	p.Order = r.Perm(len(p.Tasks))
 	// dry sequential pass: measure the schedule points of every operation
 	counts, classes := dryRun(p)
-	d := pick(r, []int{0, 1, 1, 2, 2, 3, 4})
+	d := pick(r, preemptChoices)
 	for i := 0; i < d; i++ {
 		var vt int
-		if r.P(0.7) {
+		if r.P(0.55) {
 			vt = r.Intn(nClients)
 		} else {
 			vt = nClients + r.Intn(nOps)
